@@ -36,7 +36,7 @@ MonthCase ==
      /\ 365 \in Spans
      /\ in = [cls |-> c, role |-> r, electric |-> TRUE, negatives |-> FALSE, start |-> st, span |-> 365,
               omiss |-> IF col = "o" THEN MonthBlock(st, mk, k) ELSE <<>>, tmiss |-> IF col = "t" THEN MonthBlock(st, mk, k) ELSE <<>>,
-              lead |-> 0, trail |-> 0, mcase |-> TRUE]
+              lead |-> 0, trail |-> 0, mcase |-> TRUE, empty |-> "none"]
 SpanCase ==
   \E c \in Classes, r \in {"baseline", "reporting"}, el \in BOOLEAN, ng \in BOOLEAN, st \in Starts, S \in Spans :
      \E k1 \in Counts(S), k2 \in Counts(S), h1 \in {"blockMid", "spread"}, h2 \in {"blockMid", "blockEarly", "spread"}, ld \in {0, 6}, tr \in {0, 5} :
@@ -47,12 +47,17 @@ SpanCase ==
        /\ (ng => ~el)
        /\ (k1 = 0 => h1 = "blockMid") /\ (k2 = 0 => h2 = "blockMid")
        /\ in = [cls |-> c, role |-> r, electric |-> el, negatives |-> ng, start |-> st, span |-> S,
-                omiss |-> Place(S, k1, h1), tmiss |-> Place(S, k2, h2), lead |-> ld, trail |-> tr, mcase |-> FALSE]
+                omiss |-> Place(S, k1, h1), tmiss |-> Place(S, k2, h2), lead |-> ld, trail |-> tr, mcase |-> FALSE, empty |-> "none"]
+EmptyCase ==
+  \E c \in Classes, r \in {"baseline", "reporting"}, e \in {"usage", "temp"}, el \in BOOLEAN :
+     /\ 365 \in Spans
+     /\ in = [cls |-> c, role |-> r, electric |-> el, negatives |-> FALSE, start |-> <<2019, 1, 1>>, span |-> 365,
+              omiss |-> <<>>, tmiss |-> <<>>, lead |-> 0, trail |-> 0, mcase |-> TRUE, empty |-> e]
 Init ==
-  /\ (MonthCase \/ SpanCase)
+  /\ (MonthCase \/ SpanCase \/ EmptyCase)
   /\ out = [res |-> "pending"] /\ pc = "call"
 Call == /\ pc = "call"
-        /\ LET v == SetToSortSeq(IF Edge(in) THEN Must(in) \cap ({LenName} \cup CoverageNames) ELSE Must(in), LAMBDA a, b : TRUE) IN
+        /\ LET v == SetToSortSeq(IF in.empty # "none" THEN (IF in.empty = "temp" \/ IsBase(in) THEN {NoData} ELSE {}) ELSE IF Edge(in) THEN Must(in) \cap ({LenName} \cup CoverageNames) ELSE Must(in), LAMBDA a, b : TRUE) IN
            out' = [res |-> "ok", dq |-> v, warn |-> <<>>, dqSeries |-> v]
         /\ pc' = "done" /\ UNCHANGED in
 Next == Call
